@@ -13,6 +13,7 @@ for D in seeded/*/; do
     if ! (cd $W && patch -p1 -s --fuzz=3 < /verif/$P >/dev/null 2>&1); then echo "$N prop=$PROP NOAPPLY"; git -C /repo worktree remove --force $W; continue; fi
   fi
   OUT=$(VX_REPO=$W ./vx check $PROP --tier quick 2>&1); RC=$?
+  mkdir -p /verif/build/sreg; echo "$OUT" > /verif/build/sreg/$N.log
   FIRST=$(echo "$OUT" | grep "^failed obligation\|^UNDECIDED" | head -1 | cut -c1-200)
   echo "$N prop=$PROP rc=$RC :: $FIRST"
   git -C /repo worktree remove --force $W
